@@ -99,7 +99,18 @@ VarUses ==
     <<NRoot, NFilter(NUn("not", <<NUn("exists", <<NVar(KV2), NKey(KC), NAnyArr, Gt9>>)>>))>> }
 CtxVars == << [k |-> KV2, v |-> VObj(<<[k |-> KA, v |-> VObj(<<[k |-> KB, v |-> VFlt(1)]>>)], [k |-> KC, v |-> VArr(<<VFlt(1), VFlt(2)>>)]>>)] >>
 ASSUME ndJsonSerialize("ctxvars.ndjson", <<[vars |-> CtxVars]>>)
-CtxPaths == SetToSeq(LastUses \cup CurUses \cup LenUses \cup MoreUses \cup VarUses)
+(* nested suppression scopes followed by a step whose own error must still be reported; existence below .** *)
+(* found deep under a non-last sibling; strict exists over a subscript list / keyvalue with a miss last        *)
+Gt1f == NFilter(NBin("gt", <<NCur>>, Lit(1)))
+NestUses ==
+  { <<NRoot, NKey(KB), NAnyArr, NFilter(NUn("exists", At(<<NKey(KA), Gt1f>>))), NKey(KX)>>,
+    <<NRoot, NKey(KB), NAnyArr, NFilter(NUn("exists", At(<<NKey(KA), Gt1f>>))), NKey(KA), NMethod("integer")>>,
+    <<NRoot, NKey(KB), NAnyArr, NFilter(NUn("exists", At(<<NAny(0, -1), NKey(KX)>>)))>>,
+    <<NRoot, NKey(KB), NAny(0, -1), NKey(KX)>>,
+    <<NRoot, NKey(KB), NAnyArr, NFilter(NUn("exists", At(<<NKey(KA), NIdx(<<Sub1(Lit(0)), Sub1(Lit(1))>>), Gt1f>>)))>>,
+    <<NRoot, NKey(KB), NAnyArr, NFilter(NUn("exists", At(<<NKey(KA), NIdx(<<Sub2(Lit(0), <<NLast>>)>>), Gt1f>>)))>>,
+    <<NRoot, NKey(KB), NAnyArr, NFilter(NUn("exists", At(<<NMethod("keyvalue"), NFilter(NBin("gt", At(<<NKey(KVal)>>), Lit(1)))>>)))>> }
+CtxPaths == SetToSeq(LastUses \cup CurUses \cup LenUses \cup MoreUses \cup VarUses \cup NestUses)
 Row(x) == VObj(<<[k |-> KA, v |-> VArr(x)], [k |-> KB, v |-> VFlt(1)]>>)
 CtxDocs == SetToSeq(
   { VObj(<<[k |-> KA, v |-> a], [k |-> KB, v |-> b]>>) :
@@ -109,6 +120,12 @@ CtxDocs == SetToSeq(
               VArr(<<VArr(<<VFlt(1)>>), VArr(<<VFlt(2), VFlt(1)>>)>>), VFlt(1) } }
   \cup { VObj(<<[k |-> KA, v |-> VFlt(1)], [k |-> KB, v |-> VArr(<<VObj(<<[k |-> KA, v |-> VArr(<<VFlt(7), VFlt(8)>>)], [k |-> KB, v |-> VFlt(1)]>>),
                                                               VObj(<<[k |-> KA, v |-> VArr(<<VFlt(7), VFlt(8)>>)], [k |-> KB, v |-> VFlt(0)]>>)>>)]>>) }
+  \cup { VObj(<<[k |-> KA, v |-> VFlt(1)], [k |-> KB, v |-> VArr(<<
+              VObj(<<[k |-> KA, v |-> VArr(<<VFlt(5), VFlt(0)>>)], [k |-> KB, v |-> VFlt(1)]>>),
+              VObj(<<[k |-> KA, v |-> VArr(<<VFlt(0), VFlt(5)>>)]>>),
+              VObj(<<[k |-> KA, v |-> VArr(<<VFlt(0), VFlt(0)>>)], [k |-> KB, v |-> VFlt(1)]>>)>>)]>>),
+          VObj(<<[k |-> KA, v |-> VFlt(1)], [k |-> KB, v |-> VArr(<<
+              VObj(<<[k |-> KC, v |-> VArr(<<VObj(<<[k |-> KC, v |-> VObj(<<[k |-> KX, v |-> VFlt(1)]>>)]>>), VObj(<<[k |-> KA, v |-> VFlt(2)]>>)>>)]>>)>>)]>>) }
   \cup { VObj(<<[k |-> KA, v |-> VObj(<<[k |-> KA, v |-> x], [k |-> KB, v |-> y], [k |-> KC, v |-> z]>>)], [k |-> KB, v |-> VFlt(1)]>>) :
             x \in {VStr(<<49>>), VStr(KX)}, y \in {VStr(<<50>>), VStr(KX)}, z \in {VStr(<<51>>), VStr(KX)} } )
 ASSUME ndJsonSerialize("paths.ndjson", [i \in 1..Len(CtxPaths) |-> [pred |-> FALSE, chain |-> CtxPaths[i]]])
